@@ -103,6 +103,27 @@ pub fn c10_variants(case: &Case, rng_seed: u64) -> Vec<Fail> {
         }
         Err(e) => fails_push_panic(&mut fails_cell.borrow_mut(), "history", e),
     }
+    // the thread a build runs on and what that thread built before must not show (round 16, C10-16: a thread-local
+    // memo of class conversions keyed by the code point alone): the same build on a fresh thread, and on a fresh
+    // thread after a build of the same test cases under each of three other sets of class options
+    {
+        let c1 = Case { tcs: case.tcs.clone(), cfg: case.cfg };
+        match std::thread::spawn(move || build_public(&c1)).join() {
+            Ok(got) => check("build() on a fresh thread", got),
+            Err(e) => fails_push_panic(&mut fails_cell.borrow_mut(), "fresh thread", e),
+        }
+        for other_mask in [0x3fu32, 0x15, 0x2a] {
+            let mut other = case.cfg;
+            other.bits = (other.bits & !0x3f) | ((other.bits ^ other_mask) & 0x3f);
+            if other.bits == case.cfg.bits { continue; }
+            let c0 = Case { tcs: case.tcs.clone(), cfg: other };
+            let c1 = Case { tcs: case.tcs.clone(), cfg: case.cfg };
+            match std::thread::spawn(move || { let _ = build_public(&c0); build_public(&c1) }).join() {
+                Ok(got) => check("build() on a thread that first built the same test cases under other class options", got),
+                Err(e) => fails_push_panic(&mut fails_cell.borrow_mut(), "thread history", e),
+            }
+        }
+    }
     // the hook route (fields set directly) must agree with the setter route
     check("configuration set field by field", build_impl(case));
     fails.extend(fails_cell.into_inner());
